@@ -54,6 +54,15 @@ def worker(seed: int, n: int):
             obj = r.choice([lambda: x.sum(), lambda: (x ** 2).sum(), lambda: g.coeffs(x.size) @ x, lambda: x.dot(x),
                             lambda: gen.FN["sin"](x).sum() if hasattr(gen.FN["sin"](x), "sum") else x.sum()])()
             cons = [(g.coeffs(x.size) @ x) - 1 for _ in range(r.randint(0, 2))]
+            if r.random() < 0.45:
+                # a DIFFERENT view whose name coincides with x's (slice names omit the step; row views omit the column slice)
+                a_, b_ = g.siblings()
+                m_ = r.choice(g.pool.matrices) if g.pool.matrices else None
+                if m_ is not None and m_.cols >= 2 and r.random() < 0.4:
+                    a_, b_ = m_[0, 0:m_.cols - 1], m_[0, 1:m_.cols]
+                x = a_
+                obj = r.choice([lambda: a_.sum(), lambda: (a_ ** 2).sum(), lambda: g.coeffs(a_.size) @ a_])()
+                cons = [r.choice([lambda: b_.sum() - 1, lambda: g.coeffs(b_.size) @ b_ - 2, lambda: (b_ ** 2).sum() - 3])()]
             if r.random() < 0.3:
                 cons.append(g.expr(2))
             if r.random() < 0.2:
@@ -84,25 +93,52 @@ def worker(seed: int, n: int):
             for c in cons:
                 P.subject_to(c >= 0)
             P.maximize(obj)
-        variables = P.variables
-        names = [v.name for v in variables]
-        if P.n_variables != len(names):
-            names = names + ["<n_variables mismatch>"]
-        bounds = P.get_bounds()
-        S = ser.Ser()
-        try:
-            t = S.expr(obj)
-            tc = [S.expr(c.expr) for c in P.constraints]
-        except ser.Unsupported:
-            continue
-        declared = {v.name: (v.lb, v.ub) for v in variables}
-        oq = lambda b: "None" if b is None else f"(Some {ser.q(b)})"
-        decl_t = ser.lst(f"({ser.s(k)}, ({oq(v[0])}, {oq(v[1])}))" for k, v in sorted(declared.items()))
-        bnds_t = ser.lst(f"({oq(lb)}, {oq(ub)})" for lb, ub in bounds)
-        case = f"({t}, {ser.lst(tc)}, {ser.lst(ser.s(n) for n in names)}, {decl_t}, {bnds_t})"
-        out.append({"case": case, "names": names, "shortcut": _try_get_single_vector_source(obj) is not None,
-                    "mode": "view" if mode < 0.3 else "adversarial" if mode < 0.6 else "general",
-                    "binary_bounds_ok": all((v.lb, v.ub) == (0.0, 1.0) for v in variables if v.domain == "binary")})
+        def observe(tag):
+            variables = P.variables
+            names = [v.name for v in variables]
+            if P.n_variables != len(names):
+                names = names + ["<n_variables mismatch>"]
+            bounds = P.get_bounds()
+            S = ser.Ser()
+            try:
+                t = S.expr(P.objective)
+                tc = [S.expr(c.expr) for c in P.constraints]
+            except ser.Unsupported:
+                return
+            declared = {v.name: (v.lb, v.ub) for v in variables}
+            oq = lambda b: "None" if b is None else f"(Some {ser.q(b)})"
+            decl_t = ser.lst(f"({ser.s(k)}, ({oq(v[0])}, {oq(v[1])}))" for k, v in sorted(declared.items()))
+            bnds_t = ser.lst(f"({oq(lb)}, {oq(ub)})" for lb, ub in bounds)
+            case = f"({t}, {ser.lst(tc)}, {ser.lst(ser.s(n) for n in names)}, {decl_t}, {bnds_t})"
+            out.append({"case": case, "names": names, "shortcut": _try_get_single_vector_source(P.objective) is not None,
+                        "mode": ("view" if mode < 0.3 else "adversarial" if mode < 0.6 else "general") + tag,
+                        "binary_bounds_ok": all((v.lb, v.ub) == (0.0, 1.0) for v in variables if v.domain == "binary")})
+        observe("")
+        # histories: the list has been materialised; now the model is edited and read again
+        for step in range(r.randint(0, 2)):
+            allv = sorted(P.objective.get_variables(), key=lambda v: v.name)
+            k = r.randrange(4)
+            try:
+                if k == 0 and allv:
+                    sub = r.sample(allv, max(1, len(allv) // 2))            # objective over a strict subset of what it used before
+                    nobj = sub[0] * 2
+                    for v in sub[1:]:
+                        nobj = nobj + v
+                    (P.minimize if r.random() < 0.5 else P.maximize)(nobj)
+                    tag = "+subset-objective"
+                elif k == 1:
+                    (P.minimize if r.random() < 0.5 else P.maximize)(g.expr(2))
+                    tag = "+new-objective"
+                elif k == 2:
+                    P.subject_to(g.expr(2) <= 1)
+                    tag = "+constraint"
+                else:
+                    nv = Variable(r.choice(ADVERSARIAL) + "_n", lb=r.choice([None, 0.0]), ub=r.choice([None, 3.0]))
+                    P.subject_to(nv + (allv[0] if allv else 0) >= 0)
+                    tag = "+constraint-new-var"
+            except Exception:
+                break
+            observe(tag)
     json.dump(out, sys.stdout)
 
 
